@@ -104,12 +104,17 @@ pub fn cache(n: u64) {
             // invalid sizes
             match rng.below(4) { 0 => 0, 1 => 3, 2 => (1usize << rng.below(12)) + 1 + rng.below(3) as usize, _ => 6 + rng.below(1000) as usize * 2 }
         } else { 1usize << rng.below(if i % 50 == 0 { 17 } else { 7 }) };
-        let default = rng.below(5);
+        let default = rng.below(4);
         write!(out, "C {} {} |", size, default).unwrap();
         out.flush().unwrap();
         let t = catch_unwind(AssertUnwindSafe(|| CacheTable::<u64>::new(size, default)));
         match t {
             Err(_) => { writeln!(out, " PANIC").unwrap(); }
+            Ok(_) if size.count_ones() != 1 => {
+                // accepted although not a power of two: the mask is meaningless and any lookup
+                // would be an unchecked out-of-bounds access, so the table is not used
+                writeln!(out, " ACCEPTED").unwrap(); out.flush().unwrap();
+            }
             Ok(mut t) => {
                 let nops = 5 + rng.below(60);
                 // a small pool of hashes so that collisions and repeats are common
@@ -117,8 +122,8 @@ pub fn cache(n: u64) {
                 for _ in 0..nops {
                     let h = if rng.chance(4, 5) { *rng.pick(&pool) } else { rng.next() };
                     match rng.below(3) {
-                        0 => { let v = rng.below(2000); t.add(h, v); write!(out, " a{},{}", h, v).unwrap(); }
-                        1 => { let v = rng.below(2000); let pc = rng.below(5); t.replace_if(h, v, |x| pred(pc, x)); write!(out, " r{},{},{}", h, v, pc).unwrap(); }
+                        0 => { let v = if rng.chance(1, 2) { rng.below(4) } else { rng.below(2000) }; t.add(h, v); write!(out, " a{},{}", h, v).unwrap(); }
+                        1 => { let v = if rng.chance(1, 2) { rng.below(4) } else { rng.below(2000) }; let pc = rng.below(5); t.replace_if(h, v, |x| pred(pc, x)); write!(out, " r{},{},{}", h, v, pc).unwrap(); }
                         _ => { let r = t.get(h); write!(out, " g{}={}", h, match r { Some(v) => v.to_string(), None => "N".to_string() }).unwrap(); }
                     }
                 }
